@@ -92,8 +92,135 @@ var bankMethods = map[string]bool{
 	"SendCoinsFromModuleToModule": true, "MintCoins": true, "BurnCoins": true,
 }
 
-// classifyCall maps one call instruction to a primitive kind ("" if none).
+// classifyCall maps one call instruction to a primitive kind ("" if none). A call of a
+// thin store wrapper of the module (storeWrap below) is the store operation it wraps.
 func (cx *Ctx) classifyCall(ci ssa.CallInstruction) string {
+	if k := cx.classifyCallRaw(ci); k != "" {
+		return k
+	}
+	if w := cx.wrapperAt(ci); w != nil {
+		return w.kind
+	}
+	return ""
+}
+
+// storeWrap: an irismod function whose only primitive operation is ONE store access
+// whose key is one of its own parameters and whose prefix cannot be told without the
+// caller (kvAccess.set(key, bz), loadBalance(store, key), readProto[T](store, key)).
+// For the prefix tables and the other instruction-level scans such a call IS the store
+// operation, performed at the call site with the caller's key.
+type storeWrap struct {
+	fn     *ssa.Function
+	kind   string
+	inner  ssa.CallInstruction
+	keyIdx int // parameter index of the key
+	valIdx int // parameter index of the value written as is (-1: none / computed inside)
+}
+
+func (cx *Ctx) wrapperOf(fn *ssa.Function) *storeWrap {
+	if fn == nil {
+		return nil
+	}
+	if cx.wrappers == nil {
+		cx.wrappers = map[*ssa.Function]*storeWrap{}
+	}
+	if w, ok := cx.wrappers[fn]; ok {
+		return w
+	}
+	cx.wrappers[fn] = nil
+	if fn.Blocks == nil || !isIrismodFunc(fn) || len(fn.Blocks) > 6 || cx.isDoubleFunc(fn) {
+		return nil
+	}
+	var inner ssa.CallInstruction
+	kind := ""
+	for _, b := range fn.Blocks {
+		for _, ins := range b.Instrs {
+			ci, ok := ins.(ssa.CallInstruction)
+			if !ok {
+				continue
+			}
+			k := cx.classifyCallRaw(ci)
+			if k == "" {
+				// a call into another irismod function that itself touches state: not thin
+				if g := ci.Common().StaticCallee(); g != nil && g != fn && isIrismodFunc(g) && g.Blocks != nil && !ci.Common().IsInvoke() {
+					for kk := range cx.transPrimKinds(g) {
+						if strings.HasPrefix(kk, "store.") || strings.HasPrefix(kk, "bank.") {
+							return nil
+						}
+					}
+				}
+				continue
+			}
+			if !strings.HasPrefix(k, "store.") || k == "store.iter" || k == "store.riter" || inner != nil {
+				return nil
+			}
+			inner, kind = ci, k
+		}
+	}
+	if inner == nil {
+		return nil
+	}
+	// the prefix is not decidable inside the function
+	pf := cx.storeKeyPrefixIn(inner, kind, nil)
+	undecided := len(pf) != 1
+	for _, p := range pf {
+		if strings.Contains(p, "?") || strings.HasPrefix(p, "param:") || p == "" {
+			undecided = true
+		}
+	}
+	if !undecided {
+		return nil
+	}
+	paramIdx := func(v ssa.Value) int {
+		for d := 0; d < 4; d++ {
+			switch x := v.(type) {
+			case *ssa.Convert:
+				v = x.X
+				continue
+			case *ssa.ChangeType:
+				v = x.X
+				continue
+			case *ssa.MakeInterface:
+				v = x.X
+				continue
+			case *ssa.Parameter:
+				for i, p := range fn.Params {
+					if p == x {
+						return i
+					}
+				}
+			}
+			break
+		}
+		return -1
+	}
+	args := storeArgs(inner)
+	if len(args) == 0 {
+		return nil
+	}
+	ki := paramIdx(args[0])
+	if ki < 0 {
+		return nil
+	}
+	vi := -1
+	if kind == "store.set" && len(args) > 1 {
+		vi = paramIdx(args[1])
+	}
+	w := &storeWrap{fn: fn, kind: kind, inner: inner, keyIdx: ki, valIdx: vi}
+	cx.wrappers[fn] = w
+	return w
+}
+
+// wrapperAt: the call is a static call of a store wrapper.
+func (cx *Ctx) wrapperAt(ci ssa.CallInstruction) *storeWrap {
+	c := ci.Common()
+	if c.IsInvoke() {
+		return nil
+	}
+	return cx.wrapperOf(c.StaticCallee())
+}
+
+func (cx *Ctx) classifyCallRaw(ci ssa.CallInstruction) string {
 	c := ci.Common()
 	pkg, name := calleeName(c)
 	if c.IsInvoke() {
@@ -125,6 +252,23 @@ func (cx *Ctx) classifyCall(ci ssa.CallInstruction) string {
 		return ""
 	}
 	switch {
+	case pkg == "cosmossdk.io/store/prefix" && strings.HasPrefix(name, "Store."):
+		// a prefix store used as its concrete type (st := prefix.NewStore(...); st.Set(k, v))
+		switch strings.TrimPrefix(name, "Store.") {
+		case "Get":
+			return "store.get"
+		case "Has":
+			return "store.has"
+		case "Set":
+			return "store.set"
+		case "Delete":
+			return "store.delete"
+		case "Iterator":
+			return "store.iter"
+		case "ReverseIterator":
+			return "store.riter"
+		}
+		return ""
 	case pkg == storeTypesPath && name == "KVStorePrefixIterator":
 		return "store.iter"
 	case pkg == storeTypesPath && name == "KVStoreReversePrefixIterator":
@@ -139,6 +283,32 @@ func (cx *Ctx) classifyCall(ci ssa.CallInstruction) string {
 	return ""
 }
 
+// storeArgs: the arguments of a store operation in the layout of the interface form -
+// (key), (key, value), (start, end) - whichever way the store is held: a method call on
+// the concrete prefix.Store carries its receiver as the first SSA argument.
+func storeArgs(ci ssa.CallInstruction) []ssa.Value {
+	c := ci.Common()
+	if theCtx != nil {
+		if w := theCtx.wrapperAt(ci); w != nil && w.keyIdx < len(c.Args) {
+			out := []ssa.Value{c.Args[w.keyIdx]}
+			if w.kind == "store.set" {
+				if w.valIdx >= 0 && w.valIdx < len(c.Args) {
+					out = append(out, c.Args[w.valIdx])
+				} else if in := storeArgs(w.inner); len(in) > 1 {
+					out = append(out, in[1]) // computed inside the wrapper (marshal of a parameter)
+				}
+			}
+			return out
+		}
+	}
+	if !c.IsInvoke() {
+		if pkg, name := calleeName(c); pkg == "cosmossdk.io/store/prefix" && strings.HasPrefix(name, "Store.") && len(c.Args) > 0 {
+			return c.Args[1:]
+		}
+	}
+	return c.Args
+}
+
 // Prims directly in f.
 func (cx *Ctx) primsOf(f *ssa.Function) []Prim {
 	var out []Prim
@@ -151,6 +321,9 @@ func (cx *Ctx) primsOf(f *ssa.Function) []Prim {
 			k := cx.classifyCall(ci)
 			if k == "" {
 				continue
+			}
+			if wf := cx.wrapperOf(f); wf != nil && ssa.Instruction(wf.inner) == ins {
+				continue // the wrapped access belongs to the wrapper's call sites
 			}
 			p := Prim{Kind: k, Site: ci, Fn: f, Module: moduleOf(funcPkgPath(f))}
 			if strings.HasPrefix(k, "store.") {
@@ -231,6 +404,13 @@ func (cx *Ctx) storeKeyPrefixOnChain(ci ssa.CallInstruction, kind string, fr *Fr
 }
 
 func (cx *Ctx) storeKeyPrefixIn(ci ssa.CallInstruction, kind string, kfr *frame) []string {
+	if cx.classifyCallRaw(ci) == "" {
+		if w := cx.wrapperAt(ci); w != nil {
+			if call, ok := ci.(*ssa.Call); ok {
+				return cx.storeKeyPrefixIn(w.inner, w.kind, &frame{call: call, parent: kfr})
+			}
+		}
+	}
 	c := ci.Common()
 	var key ssa.Value
 	if c.IsInvoke() {
@@ -242,7 +422,7 @@ func (cx *Ctx) storeKeyPrefixIn(ci ssa.CallInstruction, kind string, kfr *frame)
 		// KVStorePrefixIterator(store, prefix); query.Paginate(store, ...)
 		_, name := calleeName(c)
 		if name == "Paginate" || name == "FilteredPaginate" {
-			return cx.storeValuePrefix(c.Args[0])
+			return cx.storeValuePrefixIn(c.Args[0], kfr, 0)
 		}
 		if len(c.Args) < 2 {
 			return []string{"?noargs"}
@@ -258,7 +438,7 @@ func (cx *Ctx) storeKeyPrefixIn(ci ssa.CallInstruction, kind string, kfr *frame)
 	} else {
 		st = c.Args[0]
 	}
-	sp := cx.storeValuePrefix(st)
+	sp := cx.storeValuePrefixIn(st, kfr, 0)
 	out := []string{}
 	for k := range set {
 		out = append(out, k)
@@ -276,16 +456,89 @@ func (cx *Ctx) storeKeyPrefixIn(ci ssa.CallInstruction, kind string, kfr *frame)
 
 // storeValuePrefix: if the store value is prefix.NewStore(parent, p) returns p's prefixes, else [""].
 func (cx *Ctx) storeValuePrefix(v ssa.Value) []string {
+	return cx.storeValuePrefixIn(v, nil, 0)
+}
+
+// storeValuePrefixIn resolves the store value along the call chain: the store may be
+// built by a helper, passed down as a parameter, kept in a local or in a field of a small
+// wrapper struct. A prefix store over a prefix store keeps the OUTER prefix (the keys
+// of both live under it).
+func (cx *Ctx) storeValuePrefixIn(v ssa.Value, fr *frame, depth int) []string {
+	if depth > 10 || v == nil {
+		return []string{""}
+	}
 	switch x := v.(type) {
 	case *ssa.MakeInterface:
-		return cx.storeValuePrefix(x.X)
+		return cx.storeValuePrefixIn(x.X, fr, depth+1)
 	case *ssa.ChangeInterface:
-		return cx.storeValuePrefix(x.X)
-	case *ssa.Call:
-		pkg, name := calleeName(x.Common())
-		if pkg == "cosmossdk.io/store/prefix" && name == "NewStore" {
+		return cx.storeValuePrefixIn(x.X, fr, depth+1)
+	case *ssa.ChangeType:
+		return cx.storeValuePrefixIn(x.X, fr, depth+1)
+	case *ssa.TypeAssert:
+		return cx.storeValuePrefixIn(x.X, fr, depth+1)
+	case *ssa.Phi:
+		set := map[string]bool{}
+		for _, e := range x.Edges {
+			for _, p := range cx.storeValuePrefixIn(e, fr, depth+1) {
+				set[p] = true
+			}
+		}
+		var out []string
+		for k := range set {
+			out = append(out, k)
+		}
+		sort.Strings(out)
+		return out
+	case *ssa.UnOp:
+		if x.Op != token.MUL {
+			return []string{""}
+		}
+		switch a := x.X.(type) {
+		case *ssa.Alloc:
 			set := map[string]bool{}
-			cx.keyPrefix(x.Call.Args[1], nil, 0, set)
+			if a.Referrers() != nil {
+				for _, r := range *a.Referrers() {
+					if st, ok := r.(*ssa.Store); ok && st.Addr == a {
+						for _, p := range cx.storeValuePrefixIn(st.Val, fr, depth+1) {
+							set[p] = true
+						}
+					}
+				}
+			}
+			var out []string
+			for k := range set {
+				out = append(out, k)
+			}
+			sort.Strings(out)
+			if len(out) == 0 {
+				return []string{""}
+			}
+			return out
+		case *ssa.FieldAddr:
+			if vals := cx.fieldValues(a.X, a.Field, fr, 0); len(vals) > 0 {
+				set := map[string]bool{}
+				for _, fv := range vals {
+					for _, p := range cx.storeValuePrefixIn(fv.v, fv.fr, depth+1) {
+						set[p] = true
+					}
+				}
+				var out []string
+				for k := range set {
+					out = append(out, k)
+				}
+				sort.Strings(out)
+				return out
+			}
+		}
+		return []string{""}
+	case *ssa.Field:
+		if vals := cx.fieldValues(x.X, x.Field, fr, 0); len(vals) > 0 {
+			set := map[string]bool{}
+			for _, fv := range vals {
+				for _, p := range cx.storeValuePrefixIn(fv.v, fv.fr, depth+1) {
+					set[p] = true
+				}
+			}
 			var out []string
 			for k := range set {
 				out = append(out, k)
@@ -293,13 +546,76 @@ func (cx *Ctx) storeValuePrefix(v ssa.Value) []string {
 			sort.Strings(out)
 			return out
 		}
-		if f := x.Common().StaticCallee(); f != nil && isIrismodFunc(f) && f.Blocks != nil {
-			// helper returning a prefix store
+		return []string{""}
+	case *ssa.Parameter:
+		fn := x.Parent()
+		idx := -1
+		for i, p := range fn.Params {
+			if p == x {
+				idx = i
+			}
+		}
+		if idx < 0 {
+			return []string{""}
+		}
+		if fr != nil && fr.call != nil && (fr.call.Common().StaticCallee() == nil || fr.call.Common().StaticCallee() == fn) && idx < len(fr.call.Call.Args) {
+			return cx.storeValuePrefixIn(fr.call.Call.Args[idx], fr.parent, depth+1)
+		}
+		set := map[string]bool{}
+		n := 0
+		for _, cs := range cx.CallersOf(fn) {
+			cc := cs.Site.Common()
+			if cc.IsInvoke() || cc.StaticCallee() != fn || idx >= len(cc.Args) {
+				continue
+			}
+			n++
+			for _, p := range cx.storeValuePrefixIn(cc.Args[idx], nil, depth+2) {
+				set[p] = true
+			}
+		}
+		if n == 0 {
+			return []string{""}
+		}
+		var out []string
+		for k := range set {
+			out = append(out, k)
+		}
+		sort.Strings(out)
+		return out
+	case *ssa.Call:
+		pkg, name := calleeName(x.Common())
+		if pkg == "cosmossdk.io/store/prefix" && name == "NewStore" {
+			// the outer store's own prefix, if it is a prefix store itself
+			if outer := cx.storeValuePrefixIn(x.Call.Args[0], fr, depth+1); !(len(outer) == 1 && outer[0] == "") && len(outer) > 0 {
+				return outer
+			}
+			set := map[string]bool{}
+			cx.keyPrefix(x.Call.Args[1], fr, 0, set)
 			var out []string
+			for k := range set {
+				out = append(out, k)
+			}
+			sort.Strings(out)
+			return out
+		}
+		if f := x.Common().StaticCallee(); f != nil && !x.Common().IsInvoke() && isIrismodFunc(f) && f.Blocks != nil {
+			// helper returning a (prefix) store
+			nfr := &frame{call: x, parent: fr}
+			set := map[string]bool{}
 			for _, b := range f.Blocks {
 				if ret, ok := b.Instrs[len(b.Instrs)-1].(*ssa.Return); ok && len(ret.Results) > 0 {
-					out = append(out, cx.storeValuePrefix(ret.Results[0])...)
+					for _, p := range cx.storeValuePrefixIn(ret.Results[0], nfr, depth+1) {
+						set[p] = true
+					}
 				}
+			}
+			var out []string
+			for k := range set {
+				out = append(out, k)
+			}
+			sort.Strings(out)
+			if len(out) == 0 {
+				return []string{""}
 			}
 			return out
 		}
